@@ -12,7 +12,7 @@ const SPEC: Spec = Spec {
         "operands are fixed dense LCG digit strings without zero digits, so the count is deterministic",
         "thresholds carry margin over the measured values on the pinned tree (max doubling ratio 3.082, W(4096)/4096^2 = 0.074, unbalanced max ratio 1.0000)",
     ],
-    bounds_quick: "balanced n in {256,512,...,16384} and every n in 33..=4096 (doubling ratio W(2n)/W(n)); unbalanced bank n x {2n-1,2n,64n} for n in {33,40,100,256,300,1000} and every lx <= 300 x 7 length relations; 17 multiplication forms x n in {64,256,512,1024,2048,4096}",
+    bounds_quick: "balanced n in {256,512,...,16384} and every n in 33..=4096 (doubling ratio W(2n)/W(n)); unbalanced bank n x {2n-1,2n,64n} for n in {33,40,100,256,300,1000} and every lx <= 300 x 7 length relations; 17 multiplication forms x n in {64,256,512,1024,2048,4096} and x 8 unbalanced shapes (both operand orders)",
     bounds_thorough: "balanced every n in 33..=8192 and 16384; unbalanced bank and every lx <= 700 x 7 length relations; 17 forms x 6 sizes",
     hang_secs: 120,
     probes: Some(probes),
@@ -204,6 +204,42 @@ fn body(ctx: &mut Ctx) {
             ("Product [a,b]", |a, b| vec![a.clone(), b.clone()].into_iter().product()),
         ];
         let sizes: Vec<usize> = vec![64, 256, 512, 1024, 2048, 4096];
+        // unbalanced shapes through every form (both operand orders): never above the schoolbook count
+        let shapes: Vec<(usize, usize)> = vec![(33, 2112), (40, 2560), (64, 4096), (100, 6400), (128, 8192), (33, 20000), (300, 3000), (1000, 2001)];
+        for (fi, (name, f)) in forms.iter().enumerate() {
+            if name.starts_with("square") || !ctx.mine((1 << 20) + fi as u64) {
+                continue;
+            }
+            for (si, &(lx, ly)) in shapes.iter().enumerate() {
+                for swap in [false, true] {
+                    ctx.case();
+                    ctx.nontrivial(1);
+                    ctx.inner((si * 2 + swap as usize) as u64);
+                    let (ad, bd) = if swap { (dense(ly, 2), dense(lx, 1)) } else { (dense(lx, 1), dense(ly, 2)) };
+                    let (a, b) = (bu(&ad), bu(&bd));
+                    ctx.calls(1);
+                    let before = MAC_WORK.load(Ordering::Relaxed);
+                    let r = guard(|| f(&a, &b));
+                    let w = MAC_WORK.load(Ordering::Relaxed) - before;
+                    match r {
+                        Ok(p) => {
+                            if lx * ly <= 300_000 {
+                                ctx.compared(1);
+                                if nat_of(&p) != Nat::from_digits(&ad).mul(&Nat::from_digits(&bd)) {
+                                    ctx.viol(format!("form-unbalanced-product {} {}x{}", name, ad.len(), bd.len()), "product differs from refint", vec![], "exact product".into(), "different".into());
+                                }
+                            }
+                        }
+                        Err(m) => ctx.viol(format!("form-unbalanced-panic {} {}x{}", name, ad.len(), bd.len()), "multiplication panicked", vec![], "product".into(), m),
+                    }
+                    ctx.outcome(w ^ ((fi as u64) << 48) ^ ((si as u64) << 40));
+                    ctx.compared(1);
+                    if w > (lx * ly) as u64 {
+                        ctx.viol(format!("form-unbalanced {} {}x{}", name, ad.len(), bd.len()), "unbalanced product costs more digit multiplications than the schoolbook method in this multiplication form", vec![format!("form={}", name)], format!("<= {}", lx * ly), format!("{}", w));
+                    }
+                }
+            }
+        }
         for (fi, (name, f)) in forms.iter().enumerate() {
             if !ctx.mine(fi as u64) {
                 continue;
